@@ -182,33 +182,51 @@ def _is_or_child(parent, guards):
 
 
 def pool(rep, ex: Explorer):
-    """CNF.pool: one id pool per epistemic state - created only when absent, never replaced."""
+    """CNF.pool: one id pool (and one set of CNF slots) per epistemic state: the helper objects that are created again and
+    again on the same state (the CNF builder, the optimizer) keep what the state already holds and create only what is
+    missing.  Decided by evaluating their constructors on a state that has the slots and on one that has not."""
+    from ..absvals import HOpaque
+
     prog = ex.prog
+    SLOTS = ("pool", "v_cnf_dict", "f_cnf_dict", "nf_cnf_dict")
     n = 0
-    for fi in prog.functions.values():
-        if not fi.module.startswith("inference"):
-            continue
-        for node in ast.walk(fi.node):
-            if isinstance(node, ast.Assign) and len(node.targets) == 1 and isinstance(node.targets[0], ast.Subscript):
-                t = node.targets[0]
-                if isinstance(t.slice, ast.Constant) and t.slice.value == "pool":
+    for cls in ("inference.tseitin_transformation.TseitinTransformation", "inference.optimizer.Optimizer"):
+        init = prog.lookup_method(cls, "__init__")
+        if init is None:
+            raise AnalysisError(f"{cls}.__init__ not found")
+        site = fn_label(prog, init.qualname)
+        for present in (True, False):
+            held = {}
+
+            def setup(I, present=present, held=held, cls=cls):
+                ents = {"belief_base": Sym("BB"), "smt_solver": Const("z3")}
+                if present:
+                    for k in SLOTS:
+                        held[k] = I.alloc(HOpaque("IDPool")) if k == "pool" else I.alloc(HDict(sym=("kept", k)))
+                        ents[k] = held[k]
+                es = I.alloc(HDict(entries=ents))
+                held["es"] = es
+                return [I.alloc(HObj(cls, {})), es], {}
+
+            paths = ex.run(init.qualname, setup, summaries={}, key=f"pool-{cls}-{present}")
+            for p in paths:
+                if p.outcome[0] != "return":
+                    continue
+                d = p.state.heap.get(held["es"].oid)
+                for k in SLOTS:
                     n += 1
-                    guard = _guarded_by_absence(fi.node, node, "pool")
-                    where = f"{fi.path}:{fi.qualname[len(fi.module) + 1:]}:{node.lineno}"
-                    rep.check(guard, "CNF.pool", where, "pool creation", "the id pool of a state is created only when the state has none (base, query and helper variables share it)",
-                              extracted="guarded by absence" if guard else "unconditional", required='if "pool" not in state', function=f"{fi.path}:{fi.qualname[len(fi.module) + 1:]}")
-            if isinstance(node, ast.Call) and isinstance(node.func, ast.Name) and node.func.id == "IDPool":
-                pass
-    rep.floor("id pool creation sites", n, 2)
-
-
-def _guarded_by_absence(fnode, target, key):
-    for n in ast.walk(fnode):
-        if isinstance(n, ast.If) and any(x is target for s in n.body for x in ast.walk(s)):
-            t = n.test
-            if isinstance(t, ast.Compare) and len(t.ops) == 1 and isinstance(t.ops[0], ast.NotIn) and isinstance(t.left, ast.Constant) and t.left.value == key:
-                return True
-    return False
+                    v = d.entries.get(k) if isinstance(d, HDict) else None
+                    if present:
+                        rep.check(v == held[k], "CNF.pool", site, f"{k} present", "a slot the state already has is kept (ids and CNFs of the base, the query and the helper variables share one pool)",
+                                  extracted=repr(v), required="unchanged", function=site)
+                    elif v is None:
+                        # not created here: whoever builds the state has to provide it (a missing slot fails loudly, it cannot change an answer)
+                        rep.ok("CNF.pool", site, f"{k} missing", "a missing slot is left to the creator of the state", extracted="not created by this constructor")
+                    else:
+                        o = p.state.heap.get(v.oid) if isinstance(v, Ref) else None
+                        ok = (isinstance(o, HOpaque) and o.typ == "IDPool") if k == "pool" else (isinstance(o, HDict) and not o.entries and not o.each)
+                        rep.check(ok, "CNF.pool", site, f"{k} missing", "a missing slot is created empty", extracted=repr(v) if o is None else type(o).__name__, required="a new id pool" if k == "pool" else "an empty mapping", function=site)
+    rep.floor("state slots evaluated at the helper constructors", n, 16)
 
 
 def constants_handling(rep, ex: Explorer):
